@@ -469,6 +469,59 @@ FLEET['G16'] = dict(
     values=['node', 'pnode'],
 )
 
+# nonterminals that are nullable only TRANSITIVELY (body -> as bs, both nullable; body has no empty rule of its own)
+# and follow another nonterminal: lookaheads must flow through them. Language: h a* b* t (';'-separated); mid -> body adds a second level
+FLEET['G17'] = dict(
+    terms=[
+        ('h', T('char', 'h')),
+        ('t', T('char', 't')),
+        ('a', T('char', 'a', typed=True)),
+        ('b', T('regex', 'b+', 'bs', typed=True)),
+        ('semi', T('char', ';')),
+    ],
+    nterms=['prog', 'root', 'head', 'mid', 'body', 'as', 'bs', 'tail'],
+    root='prog',
+    rules=[
+        ('as', [], 'plain'),
+        ('root', ['head', 'mid', 'tail'], 'plain'),
+        ('bs', [], 'plain'),
+        ('body', ['as', 'bs'], 'plain'),
+        ('head', ['h'], 'plain'),
+        ('as', ['as', 'a'], 'plain'),
+        ('tail', ['t'], 'ctx'),
+        ('bs', ['bs', 'b'], 'plain'),
+        ('prog', ['root'], 'default'),
+        ('prog', ['prog', 'semi', 'root'], 'plain'),
+        ('mid', ['body'], 'plain'),
+    ],
+    values=['node', 'mnode'],
+)
+
+
+# an error grammar whose rules are declared in an order unrelated to nterms(...): the error rule comes first, the root's
+# empty rule in the middle; whatever the library precomputes per rule must not depend on declaration order
+FLEET['G18'] = dict(
+    terms=[
+        ('x', T('regex', '[x-z]', 'name', typed=True)),
+        ('semi', T('char', ';')),
+        ('lp', T('char', '(')),
+        ('rp', T('char', ')')),
+        ('comma', T('char', ',')),
+    ],
+    nterms=['prog', 'stmt', 'args'],
+    root='prog',
+    rules=[
+        ('stmt', ['error', 'semi'], 'ctx'),
+        ('args', ['x'], 'plain'),
+        ('stmt', ['x', 'semi'], 'plain'),
+        ('prog', [], 'plain'),
+        ('stmt', ['x', 'lp', 'args', 'rp', 'semi'], 'plain'),
+        ('prog', ['prog', 'stmt'], 'plain'),
+        ('args', ['args', 'comma', 'x'], 'plain'),
+    ],
+    values=['node', 'mnode'],
+)
+
 # standalone regex matchers (regex::expr<P>)
 REGEXES = {
     'R1': 'ab*c',
